@@ -160,6 +160,9 @@ pub struct BrokerCfg {
     /// When the broker starts sending scripted publishes it sends all that are enabled back to back,
     /// so that several packets sit in the transport at once.
     pub script_burst: bool,
+    /// The broker ignores the client's Receive Maximum: it sends further QoS 2 publishes while eight
+    /// are still unreleased (a protocol error on its side; the client's answer must still be legal).
+    pub overrun: bool,
 }
 
 impl Default for BrokerCfg {
@@ -183,6 +186,7 @@ impl Default for BrokerCfg {
             pingresp_optional: false,
             fifo: false,
             script_burst: false,
+            overrun: false,
         }
     }
 }
@@ -238,6 +242,19 @@ pub struct Cfg {
     pub drain_script: bool,
     /// RETAIN flag values offered for every publish (first = default)
     pub pub_retain: Vec<bool>,
+    /// publish shapes offered (index into `world::shape`): 0 = topic "t" without properties,
+    /// 1 = multi-level topic with user properties, correlation data and content type,
+    /// 2 = 130-byte topic (two-byte remaining length whatever the payload)
+    pub pub_shapes: Vec<u8>,
+    /// number of filters offered for SUBSCRIBE / UNSUBSCRIBE requests (first = default)
+    pub sub_counts: Vec<usize>,
+    /// will with properties and longer credentials (a CONNECT of well over 128 bytes)
+    pub big_connect: bool,
+    /// fixed openings of the first connection (one is chosen freely, its operations are then forced):
+    /// a cheap way to start the exploration from deep states
+    pub preludes: Vec<Vec<OpK>>,
+    /// situations (oracle::SITUATIONS) this family exists to reach; reported when no execution does
+    pub must_reach: Vec<&'static str>,
 }
 
 #[derive(Copy, Clone, Debug, PartialEq, Eq)]
@@ -283,6 +300,11 @@ impl Cfg {
             cancel_only: None,
             drain_script: false,
             pub_retain: vec![false],
+            pub_shapes: vec![0],
+            sub_counts: vec![1],
+            big_connect: false,
+            preludes: Vec::new(),
+            must_reach: Vec::new(),
         }
     }
     pub fn has(&self, p: &str) -> bool {
